@@ -154,4 +154,47 @@ Section Data.
       assert (Fa := fget_fin _ (R a (or_introl eq_refl))). assert (Fl := fget_fin _ (Rt _ Hlast)).
       apply (leb_R _ _ Fa Fl). eapply ordered_values_le; [exact R|exact Ho|exact Hlast].
   Qed.
+  (* the stable order is unique: two orderings of the same indices that both put smaller values first
+     and equal values in index order are the same list *)
+  Lemma before_asym a b : (0 <= a < Z.of_nat (length x))%Z -> (0 <= b < Z.of_nat (length x))%Z ->
+    before x a b = true -> before x b a = true -> False.
+  Proof.
+    intros Ra Rb H1 H2. unfold before in *.
+    apply (before_v_bef (a, fget x a) (b, fget x b) (fget_fin _ Ra) (fget_fin _ Rb)) in H1.
+    apply (before_v_bef (b, fget x b) (a, fget x a) (fget_fin _ Rb) (fget_fin _ Ra)) in H2.
+    unfold bef in *. cbn [fst snd] in *. destruct H1 as [H1|[H1 L1]], H2 as [H2|[H2 L2]]; try lra. lia.
+  Qed.
+
+  Theorem ordered_unique s1 : forall s2,
+    (forall k, In k s1 -> (0 <= k < Z.of_nat (length x))%Z) ->
+    Permutation s1 s2 -> ordered x s1 -> ordered x s2 -> s1 = s2.
+  Proof.
+    induction s1 as [|a t1 IH]; intros s2 R P O1 O2.
+    - apply Permutation_nil in P. symmetry. exact P.
+    - destruct s2 as [|b t2]; [apply Permutation_sym, Permutation_nil in P; discriminate|].
+      assert (E : a = b).
+      { destruct (Z.eq_dec a b) as [E|N]; [exact E|exfalso].
+        assert (Ia : In a t2).
+        { assert (I : In a (b :: t2)) by (apply (Permutation_in _ P); left; reflexivity).
+          destruct I as [I|I]; [congruence|exact I]. }
+        assert (Ib : In b t1).
+        { assert (I : In b (a :: t1)) by (apply (Permutation_in _ (Permutation_sym P)); left; reflexivity).
+          destruct I as [I|I]; [congruence|exact I]. }
+        apply (before_asym a b); [apply R; left; reflexivity|apply R; right; exact Ib|apply O1; exact Ib|apply O2; exact Ia]. }
+      subst b. f_equal. apply IH.
+      + intros k Hk. apply R. right. exact Hk.
+      + apply (Permutation_cons_inv P).
+      + apply O1.
+      + apply O2.
+  Qed.
+
+  (* whatever a stable argsort returns -- a permutation of 0..n-1 ordered by value with ties in
+     original order -- it is the list the model computes *)
+  Corollary stable_argsort_unique s :
+    Permutation s (zseq 0 (length x)) -> ordered x s -> s = argsort x.
+  Proof.
+    intros P O. apply ordered_unique; [| |exact O|apply argsort_ordered].
+    - intros k Hk. apply (Permutation_in _ P) in Hk. apply in_zseq in Hk. lia.
+    - eapply Permutation_trans; [exact P|apply Permutation_sym, argsort_perm].
+  Qed.
 End Data.
